@@ -43,7 +43,10 @@ def gen(rng, tier):
             yield cc.gen_case(rng, mock_frames=rng.randint(2, 3), frame_type='all_frame')
         elif r < 0.91:
             yield cc.gen_case(rng, nactions=2)
-        elif r < 0.925:
+        elif r < 0.92:
+            # a watch whose collection aborts part-way, then watches reaching what it had numbered (recorded finding)
+            yield cc.gen_aborted(rng)
+        elif r < 0.93:
             # a local of one frame is the f_locals dict of another frame of the chain (recorded finding D31, multi-frame shape)
             yield cc.gen_frame_locals(rng)
         elif r < 0.95:
@@ -115,6 +118,15 @@ def known_replays():
         (D31, 'x = 1; l = locals(): the frame lists `l` under the id of the locals pseudo-entry, which is deleted',
          {'objs': [{'t': 'int', 'v': 1}], 'locals': [['x', 0]], 'locals_self': 'l', 'frame_type': 'single_frame',
           'stream': 'd31', 'actions': [{'limits': {}}]}),
+        (cc.K_ABORT, "watches '[SH, BAD]', 'SH', '[SH]' with str(BAD) raising a BaseException: the first watch is an error, the "
+                     "second gets the id the first gave SH, which has no entry",
+         {'objs': [{'t': 'int', 'v': 1}, {'t': 'str', 'v': 'shared value'}, {'t': 'aborting', 'k': 'str_stops'}],
+          'locals': [['x', 0]], 'globals': [['SH', 1], ['BAD', 2]], 'frame_type': 'single_frame', 'stream': 'aborted-watch',
+          'actions': [{'limits': {}, 'watches': ['[SH, BAD]', 'SH', '[SH]']}]}),
+        (cc.K_ABORT, "the same with type(BAD).__name__ raising through a metaclass property (an ordinary RuntimeError)",
+         {'objs': [{'t': 'int', 'v': 1}, {'t': 'str', 'v': 'shared value'}, {'t': 'aborting', 'k': 'meta_name'}],
+          'locals': [['x', 0]], 'globals': [['SH', 1], ['BAD', 2]], 'frame_type': 'single_frame', 'stream': 'aborted-watch',
+          'actions': [{'limits': {}, 'watches': ['[SH, BAD]', 'SH']}]}),
         (D31, 'watch `locals()`: the watch result points at the deleted locals pseudo-entry',
          {'objs': [{'t': 'int', 'v': 1}], 'locals': [['x', 0]], 'frame_type': 'single_frame', 'stream': 'd31',
           'actions': [{'limits': {}, 'watches': ['locals()']}]}),
@@ -188,6 +200,15 @@ def known_finding(case, obs):
     """an instance of D31 = the case binds a frame's locals dict to a name / watch AND everything the identity oracle objects to
     is of the one shape the model allows (`C07.c07_dangling_only_locals`): a reference without entry that was made for the
     locals dict of a collected frame.  Anything else on such a case is a violation."""
+    if cc.aborted_watch_case(case):
+        # an earlier watch / log field of the action aborted: the only objection allowed is a reference without entry
+        live = cc.live_of(obs)
+        if live is None or 'raised' in obs:
+            return None
+        for ai, s in cc.snapshots_by_action(case, obs):
+            if any('has no entry in the variable table' not in x for x in cc.judge_identity(case, obs, live, ai, s)):
+                return None
+        return cc.K_ABORT
     if not cc.refers_to_locals(case):
         return None
     live = cc.live_of(obs)
